@@ -933,6 +933,7 @@ iwrc iwal_online_backup(struct iwkv *iwkv, uint64_t *ts, const char *target_file
     wal->bkp_stage = BKP_STARTED;
   }
   _unlock(wal);
+  RCRET(rc);
 
 #ifndef _WIN32
   HANDLE fh = open(target_file, O_CREAT | O_WRONLY | O_TRUNC, 00600);
